@@ -268,8 +268,10 @@ where
                 .await;
                 if let Err(e) = forwarded {
                     error!("[udp] drop datagram that could not be forwarded; sender={}, error={}", sender, e);
-                    // a sink that failed keeps the datagram it could not send and fails again on every later one
-                    client_server_cache.remove(&failed_key);
+                    // a sink whose socket failed keeps the datagram it could not send and fails again on every later one
+                    if e.downcast_ref::<std::io::Error>().is_some() {
+                        client_server_cache.remove(&failed_key);
+                    }
                 }
             }
             else => break,
